@@ -7,6 +7,7 @@
  *                                  `<path>#` its clones); `-` removes the script
  *   cfg [nobb] [noroot] [simul]    first line of a case: master without get_bb_uid() / get_root_uid(), simul_efun object
  *                                  /c20/simul registered as actor `se` (the plugin runs the case with the matching conf)
+ *   do m connect,<newoid>,<path>   the driver's mudlib_connect(): master connect() clones the user object
  *   do m preload,<path>            the driver's preload_objects(): master epilog() names the file, master preload() loads it
  *   do <oid> later,<op> | hb,<op>  the op is scheduled with call_out / runs in the object's next heart_beat; one backend tick
  *   do <oid> <op>                  run one op (see harness/mudlib/c20/body.h) in the object registered as <oid>
@@ -79,6 +80,13 @@ static int c20_cmd (char *line)
       object_t *reg = vh_obj ("reg");
       if (!reg || vh_apply_str (reg, "act", 2, tok + 1, 0, 0))
         vh_out ("r !harness");
+      else if (!strcmp (tok[1], "m") && !strncmp (tok[2], "connect,", 8))
+        {
+          /* the driver's connection handling up to the master apply: connect() creates the user object.  (No socket: the
+             driver then treats the connection as rejected, the object stays an ordinary object.) */
+          eval_cost = CONFIG_INT (__MAX_EVAL_COST__);
+          (void) mudlib_connect (4000, "verif");
+        }
       else if (!strcmp (tok[1], "m") && !strncmp (tok[2], "preload,", 8))
         {
           eval_cost = CONFIG_INT (__MAX_EVAL_COST__);
